@@ -22,6 +22,7 @@ package websocket
 //@ pred isCtl(op int) := op == 8 || op == 9 || op == 10
 //@ pred len16(p *[]byte) := (*p)[2]*256 + (*p)[3]
 //@ pred len64(p *[]byte) := ((((((((*p)[2]*256 + (*p)[3])*256 + (*p)[4])*256 + (*p)[5])*256 + (*p)[6])*256 + (*p)[7])*256 + (*p)[8])*256 + (*p)[9])
+//@ pred hdrLenR(p7 int, masked bool) := ite(p7 < 126, 2, ite(p7 == 126, 4, 10)) + ite(masked, 4, 0)
 //@ pred mlen(c *Conn) := ite(c.message == nil, 0, len(*c.message))
 //@ pred limit(c *Conn) := c.commonFields.MessageLengthLimit
 
@@ -31,13 +32,25 @@ package websocket
 //@   ensures rfc: (result == nil) == (!(res1 && !c.enableCompression) && !res2 && !res3 && !(opcode > 2 && opcode < 8) && (fin || opcode == 0 || opcode == 1 || opcode == 2) && !(expectingFragments && (opcode == 1 || opcode == 2)))  // prop C13
 //@   assigns allocates
 
+// ---- masking. xor8 is the bitwise exclusive or of two bytes; the solver is told only that it is an involution and stays a byte.
+// maskXOR itself (three loops over 64-, 8- and 1-byte steps, 64-bit XOR of little-endian words) is NOT proved against this
+// contract: its contract is trusted, with a BOUNDED stand-in (all lengths 0..300, keys and contents sampled, run by the
+// C12 check on the real function: /verif/bounded/maskxor_test.go.txt).
+//@ ghost fun xor8 : (Int Int) Int
+// m4(i) is i mod 4 (which key byte masks payload byte i); the proofs need only that it is a fixed function into 0..3
+//@ ghost fun m4 : (Int) Int
+//@ axiom m4range: forall i int {m4(i)} :: 0 <= m4(i) && m4(i) <= 3
+//@ axiom xorinv: forall a int, k int {xor8(xor8(a, k), k)} :: xor8(xor8(a, k), k) == a
+//@ axiom xorbyte: forall a int, k int {xor8(a, k)} :: 0 <= a && a <= 255 && 0 <= k && k <= 255 ==> 0 <= xor8(a, k) && xor8(a, k) <= 255
 //@ func maskXOR
 //@   trusted
 //@   requires len(key) >= 4
+//@   requires apart: base(key) != base(b) || off(key) + 4 <= off(b) || off(b) + len(b) <= off(key)
+//@   ensures masked: forall p int {mem(b, p)} :: off(b) <= p && p < off(b) + len(b) ==> mem(b, p) == xor8(memold(b, p), memold(key, off(key) + m4(p - off(b))))   // prop C12
 //@   assigns elems(b)
 
 //@ func (*Conn).nextFrame
-//@   props C13 C15
+//@   props C12 C13 C15
 //@   safety index slice nil div assert panic make
 //@   requires c.commonFields != nil
 //@   ensures topbit: old(c.bytesCached != nil && len(*c.bytesCached) >= 10 && plen7(c.bytesCached) == 127 && (*c.bytesCached)[2] >= 128) ==> result6 != nil  // prop C13
@@ -48,6 +61,13 @@ package websocket
 //@   ensures valid: result3 && result6 == nil ==> 0 <= result1 && result1 <= 15 && !(result1 > 2 && result1 < 8) && (result4 || result1 <= 2) && !(old(c.expectingFragments) && (result1 == 1 || result1 == 2)) && (result5 ==> old(c.enableCompression))  // prop C13
 //@   ensures okbody: result3 ==> old(c.bytesCached) != nil && result0 >= 2 && result0 <= old(len(*c.bytesCached)) && 0 <= len(result2) && len(result2) + 2 <= result0 && (len(result2) > 0 ==> base(result2) == old(base(*c.bytesCached)))   // prop C12
 //@   ensures fields: result3 ==> result1 == old(opc(c.bytesCached)) && result4 == (old((*c.bytesCached)[0]) >= 128)   // prop C12 C13
+//@   note decoding (C12): the payload returned is exactly the bytes after the header, as many as the header says, and the frame size is header + payload; RSV1 is reported as sent; an unmasked frame (server to client) is returned untouched
+//@   ensures bodyat: result3 ==> result0 == hdrLenR(old(plen7(c.bytesCached)), old((*c.bytesCached)[1]) >= 128) + len(result2) && (len(result2) > 0 ==> off(result2) == old(off(*c.bytesCached)) + hdrLenR(old(plen7(c.bytesCached)), old((*c.bytesCached)[1]) >= 128))   // prop C12
+//@   ensures bodylen: result3 ==> len(result2) == ite(old(plen7(c.bytesCached)) < 126, old(plen7(c.bytesCached)), ite(old(plen7(c.bytesCached)) == 126, old(len16(c.bytesCached)), old(len64(c.bytesCached))))   // prop C12
+//@   ensures rsv1: result3 ==> result5 == (old((*c.bytesCached)[0]) % 128 >= 64)   // prop C12
+//@   ensures unmasked: result3 && old((*c.bytesCached)[1]) < 128 ==> (forall q int :: bytes_row(q) == old(bytes_row(q)))   // prop C12
+//@   ensures unmask: result3 && old((*c.bytesCached)[1]) >= 128 ==> (forall p int {mem(result2, p)} :: off(result2) <= p && p < off(result2) + len(result2) ==> mem(result2, p) == xor8(memold(result2, p), memold(*c.bytesCached, off(result2) - 4 + m4(p - off(result2)))))   // prop C12
+//@   ensures incomplete: !result3 && result6 == nil ==> (forall q int :: bytes_row(q) == old(bytes_row(q))) && c.bytesCached == old(c.bytesCached)   // prop C12
 //@   ensures limok: result3 && result6 == nil && limit(c) > 0 ==> old(mlen(c)) + len(result2) <= limit(c)   // prop C15
 //@   ensures ctlok: result3 && result6 == nil && isCtl(result1) ==> len(result2) <= 125        // prop C13 C15
 //@   ensures nofree: forall q int :: liveP[q] == old(liveP[q])
@@ -58,6 +78,10 @@ package websocket
 // reader's knowledge of it between its critical sections is kept in thread-local ghosts tied to the monitor.
 //@ ghost local Conn.gRCache : Int
 //@ ghost local Conn.gW : Int
+//@ ghost local Conn.gBase : Int
+//@ ghost local Conn.gOff0 : Int
+//@ ghost local Conn.gEnd : Int
+//@ ghost local Conn.gTotal : Int
 //@ ghost local Conn.gWP : Int
 //@ ghost local Conn.gRMsg : Int
 //@ ghost local Conn.gRType : Int
@@ -205,7 +229,7 @@ package websocket
 //@   inline
 
 //@ func (*Conn).WriteMessage
-//@   props C15 C13 C14
+//@   props C12 C15 C13 C14
 //@   safety index slice nil div assert panic make lock
 //@   requires WsWired(c) && !holds(c.mux) && c.Engine.MaxWebsocketFramePayloadSize > 0 && c.Conn != nil
 //@   note the message type is one of the six opcodes of RFC 6455 (or 0 for WriteFrame continuation): a caller's own invalid opcode is outside the property
@@ -217,6 +241,14 @@ package websocket
 //@   note the compression buffer is this call's own: new, or grown by the compressor, never one of the reader's buffers
 //@   at call:Write#1 ghost { c.gW = w; c.gWP = w.pbuf }
 //@   at call:Close#1 ghost { c.gWP = w.pbuf }
+//@   note fragmentation (C12): the frames of one message carry its bytes contiguously and completely; the first has the opcode (and RSV1 when compressed), the others are continuations, FIN is on the frame that takes the rest; an empty message is one empty final frame
+//@   at before:writeFrame#1 ghost { c.gBase = ite(c.gFrames == 0, base(arg_data), c.gBase); c.gOff0 = ite(c.gFrames == 0, off(arg_data), c.gOff0); c.gTotal = ite(c.gFrames == 0, len(data), c.gTotal); c.gEnd = ite(c.gFrames == 0, off(arg_data), c.gEnd) }
+//@   at before:writeFrame#1 assert contiguous: (c.gFrames == 0 || (base(arg_data) == c.gBase && off(arg_data) == c.gEnd)) && base(arg_data) == base(data) && off(arg_data) == off(data) && len(arg_data) > 0 && len(arg_data) <= c.Engine.MaxWebsocketFramePayloadSize   // prop C12
+//@   at before:writeFrame#1 assert first: arg_sendOpcode == (c.gFrames == 0) && arg_messageType == messageType && (arg_compress ==> c.gFrames == 0)   // prop C12
+//@   at before:writeFrame#1 assert fin: arg_fin == (len(arg_data) == len(data))   // prop C12
+//@   at call:writeFrame#1 ghost { c.gEnd = c.gEnd + len(arg_data) }
+//@   at before:writeFrame#2 assert empty: len(arg_data) == 0 && arg_fin && arg_sendOpcode && arg_messageType == messageType   // prop C12
+//@   ensures whole: result == nil && c.gFrames > 1 ==> c.gEnd == c.gOff0 + c.gTotal   // prop C12
 //@   at before:writeFrame#1 assert locked: holds(c.mux)                                               // prop C14
 //@   at before:writeFrame#2 assert locked: holds(c.mux)                                               // prop C14
 //@   at call:writeFrame#1 ghost { c.gFrames = c.gFrames + 1 }
@@ -224,6 +256,7 @@ package websocket
 //@   loop 1
 //@     invariant holds(c.mux) && WsWired(c) && c.Engine.MaxWebsocketFramePayloadSize > 0 && len(data) >= 0 && c.Conn != nil
 //@     invariant isCtl(messageType) ==> len(data) <= 125
+//@     invariant c.gFrames >= 0 && (c.gFrames > 0 ==> base(data) == c.gBase && off(data) == c.gEnd && c.gEnd + len(data) == c.gOff0 + c.gTotal) && (sendOpcode == (c.gFrames == 0)) && (sendCompress ==> c.gFrames == 0)
 //@     invariant !c.closed ==> WsOwn(c)
 //@     invariant (forall wb *writeBuffer :: wb == c.gW && wb != nil ==> wb.pbuf == c.gWP) && (c.gWP != 0 ==> liveP[c.gWP] && c.gWP != c.bytesCached && c.gWP != c.message)
 // ---- one frame on the wire (RFC 6455 5.2), as writeFrame builds it. The same header predicates are what nextFrame decodes
@@ -246,7 +279,10 @@ package websocket
 //@   at return assert l16: result == nil && len(data) >= 126 && len(data) <= 65535 ==> (*pbuf)[2]*256 + (*pbuf)[3] == len(data)   // prop C12
 //@   at return assert l64: result == nil && len(data) > 65535 ==> ((((((((*pbuf)[2]*256 + (*pbuf)[3])*256 + (*pbuf)[4])*256 + (*pbuf)[5])*256 + (*pbuf)[6])*256 + (*pbuf)[7])*256 + (*pbuf)[8])*256 + (*pbuf)[9]) == len(data)   // prop C12
 //@   at return assert payload: result == nil && !c.isClient ==> (forall p int {mem(*pbuf, p)} :: off(*pbuf) + hdrLen(len(data), false) <= p && p < off(*pbuf) + len(*pbuf) ==> mem(*pbuf, p) == memold(data, p - off(*pbuf) - hdrLen(len(data), false) + old(off(data))))   // prop C12
+//@   at return assert maskedpayload: result == nil && c.isClient ==> (forall p int {mem(*pbuf, p)} :: off(*pbuf) + hdrLen(len(data), true) <= p && p < off(*pbuf) + len(*pbuf) ==> mem(*pbuf, p) == xor8(memold(data, p - off(*pbuf) - hdrLen(len(data), true) + old(off(data))), mem(*pbuf, off(*pbuf) + hdrLen(len(data), true) - 4 + m4(p - off(*pbuf) - hdrLen(len(data), true)))))   // prop C12
 //@   at before:Write#1 assert handed: arg_b == *pbuf   // prop C12
+//@   note round trip of the header, as a lemma over the two contracts' own predicates (a closed formula, checked here once): what writeFrame/hlen,b0,b1 put into the first two bytes is what nextFrame/fields,rsv1,bodyat,bodylen read out of them
+//@   at entry assert roundtrip: forall fi bool, r1 bool, cl bool, op int, n int, b0 int, b1 int :: 0 <= op && op <= 15 && 0 <= n && b0 == ite(fi, 128, 0) + ite(r1, 64, 0) + op && b1 == ite(cl, 128, 0) + ite(n < 126, n, ite(n <= 65535, 126, 127)) ==> b0 % 16 == op && (b0 >= 128) == fi && (b0 % 128 >= 64) == r1 && (b1 >= 128) == cl && b1 % 128 == ite(n < 126, n, ite(n <= 65535, 126, 127)) && hdrLenR(b1 % 128, b1 >= 128) == hdrLen(n, cl) && (b1 % 128 < 126 ==> b1 % 128 == n)   // prop C12
 //@   ensures freed: old(c.sendQueue) == nil ==> (forall q int :: q <= old(top) ==> liveP[q] == old(liveP[q]))        // prop C11
 //@   ensures nofree: forall q int :: old(liveP[q]) ==> liveP[q]                                       // prop C11
 //@   assigns everything
